@@ -16,7 +16,8 @@ RULE = ('1..3 math regions out of $..$, $$..$$, \\(..\\), \\[..\\] and the 17 na
         'Oracle by construction: the math nodes of the tree, in document order, have the expected delimiters/name and a '
         'body whose concatenated text is exactly the enclosed source; the document round-trips; every command placed in '
         'a body is found. Non-trivial = a body has an unbalanced bracket or a sizing / zero-argument command, or two '
-        'regions are adjacent; distinct by source')
+        'regions are adjacent; distinct by source'
+        '. Also: command-command atoms, blank+bracket behind a brace argument, and chains nested up to 150 deep inside math regions')
 ASSUMPTIONS = ['$..$ directly followed by $ is outside the quantifier (the tokenizer reads $$ greedily): never generated, counted']
 
 DELIM = ['$', '$$', '\\(', '\\[']
